@@ -104,6 +104,8 @@ type ExpSim struct {
 	// PreTrials > 0: the Experiment object is handed to Execute with a Trials slice of that length already allocated
 	// (a reused experiment object, or one sized by the caller); 0 = nil slice
 	PreTrials int
+	// PreTrialsUsed: the preallocated slots still hold the records of an earlier execution
+	PreTrialsUsed bool
 	// WinnerRecordWhenUnsolved: the evaluator also fills the winner fields of generations it does not report solved (a
 	// two-stage evaluator that found a candidate which then failed the second test does that)
 	WinnerRecordWhenUnsolved bool
@@ -340,6 +342,11 @@ func (s *ExpSim) Run(lib func(string, func())) {
 			s.Exp.Trials = make(experiment.Trials, s.PreTrials)
 			for i := range s.Exp.Trials {
 				s.Exp.Trials[i].Id = -7 - i
+				if s.PreTrialsUsed {
+					// what an earlier Execute on this experiment object (a retry after an error, a second experiment) left
+					s.Exp.Trials[i].Generations = experiment.Generations{{Id: 0, TrialId: i, Solved: i%2 == 0}, {Id: 1, TrialId: i}}
+					s.Exp.Trials[i].Duration = time.Duration(1+i) * time.Second
+				}
 			}
 		}
 		var obs experiment.TrialRunObserver
@@ -426,7 +433,7 @@ func (s *ExpSim) Describe() string {
 		pre = fmt.Sprintf(" deadline=%v", time.Duration(s.DeadlineNs))
 	}
 	if s.PreTrials > 0 {
-		pre += fmt.Sprintf(" preallocatedTrials=%d", s.PreTrials)
+		pre += fmt.Sprintf(" preallocatedTrials=%d used=%t", s.PreTrials, s.PreTrialsUsed)
 	}
 	return fmt.Sprintf("trials=%d generations=%d solvedAt=%v observer=%t%s faults=%v %s", s.Opts.NumRuns, s.Opts.NumGenerations, s.SolvedAt, s.Observer, pre, s.Faults, OptSummary(s.Opts))
 }
